@@ -233,7 +233,105 @@ def correspond(ctx):
                 _v(res, "the key file changed after it was first created", f"[{c}]: key ids {keys_seen}", s)
     finally:
         fe.teardown()
+    commands_layer(ctx, res)
     return res
+
+
+NAMES = ["alice", "alice ", " alice", "Alice", "bob", "", "\u00e4lice", "alice\t", "a" * 40, "bob  "]
+
+
+def commands_layer(ctx, res):
+    """commands.py + service_name_handler.py: services addressed by NAME.  Random histories of create_service(config, name)
+    over adversarially close names (surrounding blanks, case, empty, non-ASCII) with valid and invalid configurations, and
+    name look-ups; after every command the set of service folders and the name mapping are compared with Model/Commands.lean;
+    at the end every name is used for `generate_key` and the key must appear in the folder the name resolves to."""
+    import contextlib
+    import io
+    import json as _json
+    import frontend_env as fe
+    rng = ctx.rng
+    hexn = lambda n: n.encode().hex() or "-"
+    lines, impl = [], []
+    cases = []
+    for h in range(ctx.pick(25, 400)):
+        env = fe.setup(cleanup_delay=0.0)
+        try:
+            import frontend.client.commands as commands
+            import frontend.client.services.service_name_handler as snh
+            import schemes
+            root = os.path.join(env["home"], ".sse", "client")
+            good = schemes.load_sse_module("CJJ14.PiBas").SSEConfig.get_default_config()
+            bad = dict(good, param_lambda=17)
+            cfgp = {True: os.path.join(env["home"], "good.json"), False: os.path.join(env["home"], "bad.json")}
+            _json.dump(good, open(cfgp[True], "w")); _json.dump(bad, open(cfgp[False], "w"))
+            order = []          # sids in order of first appearance on disk
+
+            def world():
+                dirs = [d for d in (os.listdir(root) if os.path.isdir(root) else []) if os.path.isdir(os.path.join(root, d))]
+                for d in sorted(dirs, key=lambda d: os.path.getmtime(os.path.join(root, d))):
+                    if d not in order:
+                        order.append(d)
+                canon = {d: f"s{i}" for i, d in enumerate(order)}
+                try:
+                    mp = _json.load(open(os.path.join(root, "service_mapping.json")))
+                except FileNotFoundError:
+                    mp = {}
+                return ("ok " + ",".join(canon[d] for d in order if d in dirs) + " | " +
+                        ",".join(f"{hexn(n)}={canon.get(v, '?')}" for n, v in mp.items())), mp, canon
+            hist = []
+            lines.append("cmd reset"); impl.append("ok")
+            for _ in range(rng.randint(2, 9)):
+                name = rng.choice(NAMES[:4] if rng.random() < 0.6 else NAMES)
+                if rng.random() < 0.75:
+                    ok = rng.random() < 0.8
+                    _, mp0, _ = world()
+                    with contextlib.redirect_stdout(io.StringIO()) as out:
+                        commands.create_service(cfgp[ok], name)
+                    acc = "successfully" in out.getvalue()
+                    hist.append(f"create {'valid' if ok else 'invalid'} {name!r}")
+                    lines.append(f"cmd create {1 if ok else 0} {hexn(name)} s{len(order)}")
+                    impl.append("ok accepted" if acc else "ok refused")
+                else:
+                    hist.append(f"resolve {name!r}")
+                    lines.append(f"cmd resolve {hexn(name)}")
+                    try:
+                        sid = snh.get_service_id_by_sname(name)
+                        w, _, canon = world()
+                        impl.append("ok " + canon.get(sid, "?"))
+                    except KeyError:
+                        impl.append("err KeyError")
+                lines.append("cmd world"); impl.append(world()[0])
+            # every recorded name reaches its own service
+            _, mp, canon = world()
+            for name, sid in mp.items():
+                before = os.path.exists(os.path.join(root, sid, "key"))
+                with contextlib.redirect_stdout(io.StringIO()):
+                    commands.generate_key(sname=name)
+                others = [d for d in order if d != sid and os.path.exists(os.path.join(root, d, "key"))
+                          and d not in [mp[n] for n in list(mp)[:list(mp).index(name)]]]
+                if not os.path.exists(os.path.join(root, sid, "key")) or (others and not before):
+                    _v(res, "a command addressed by service name reached another service",
+                       f"generate_key(sname={name!r}) after {hist}", [("names", hist)])
+            cases.append(hist)
+            res.evaluations += 1
+            res.count("command-layer histories")
+        finally:
+            fe.teardown()
+    outs = ctx.driver.batch(lines)
+    n0 = len(res.disagreements)
+    compare(res, lines, impl, outs)
+    if len(res.disagreements) > n0:
+        # which history?  the property's own clause: a refused create leaves folders and mapping unchanged
+        k = -1
+        for i, (l, a, m) in enumerate(zip(lines, impl, outs)):
+            if l == "cmd reset":
+                k += 1
+            if a != m:
+                _v(res, "command layer (service names): folders / name mapping differ from the model after a command",
+                   f"history {cases[k]}: after '{l}' the implementation has '{a}', the model '{m}' "
+                   "(s<k> = k-th service folder that appeared; a refused create must leave folders and mapping unchanged)",
+                   [("names", cases[k])])
+                break
 
 
 def _v(res, sig, what, s):
